@@ -99,6 +99,7 @@ Laws == done =>
 Vec == done =>
   Emit([p |-> pi, mode |-> mode, text |-> Variant, minus |-> MinusAdjacent(Progs[pi].T, g),
         printsemi |-> BarePrintSemi(Progs[pi].T, g),
+        kinds |-> {g[i] : i \in 1..(N-1)} \cup {lead, trail},
         semis |-> Cardinality({i \in 1..(N-1) : g[i] = "semi"}),
         swaps |-> Cardinality({i \in 1..N : Progs[pi].T[i].tag = "Str" /\ qs[i] # OrigQuote(pi, i)})])
 
@@ -109,5 +110,9 @@ InitInfo == /\ pi \in 1..NProg /\ mode = "info" /\ lead = "none" /\ trail = "non
 NextInfo == FALSE /\ UNCHANGED vars
 Info == Emit([p |-> pi, ok |-> pi \in Usable, minus |-> IF Progs[pi].ok THEN OrigMinusAdj(pi) ELSE FALSE,
               toks |-> Compact(Progs[pi].all),
+              \* vacuity evidence: which cases of the context scan and of Permitted this program exercises
+              ctx |-> {Progs[pi].cx[i].inner : i \in 1..Len(Progs[pi].T)},
+              classes |-> IF pi \in Usable THEN {GapClass(Progs[pi].T, Progs[pi].cx, OrigNl(pi, i), i) : i \in 1..(N-1)} ELSE {},
+              fused |-> IF pi \in Usable THEN Cardinality({i \in 1..(N-1) : NeedsSpace(Progs[pi].T[i], Progs[pi].T[i+1])}) ELSE 0,
               seps |-> IF Progs[pi].ok THEN Cardinality({i \in 1..(N-1) : OrigNl(pi, i) /\ Separator(Progs[pi].T, Progs[pi].cx, i)}) ELSE 0])
 =============================================================================
